@@ -89,6 +89,9 @@ def call_iterfit(case, perm=None):
     if perm is not None:
         p = np.array(perm)
         x, y, w = x[p], y[p], w[p]
+    if case.get('layout'):                      # [layout name, which of x / y / w / all]
+        name, which = case['layout']
+        x, y, w = (_bsp.layout(a, name) if which in (key, 'all') else a for key, a in (('x', x), ('y', y), ('w', w)))
     keep = (x.copy(), y.copy(), w.copy())
     with warnings.catch_warnings():
         warnings.simplefilter('ignore')
@@ -238,7 +241,7 @@ def check_order(case, perm, base=None):
     x, y, w = make_data(case)
     try:
         if base is None:
-            s0, m0, _ = call_iterfit(case)
+            s0, m0, _ = call_iterfit({kk: vv for kk, vv in case.items() if kk != 'layout'})
             t = np.asarray(s0.breakpoints, dtype=np.float64)
             grid = eval_grid(t, case['k'], x[w > 0])
             base = (grid, curve_of(s0, grid), m0)
@@ -252,12 +255,15 @@ def check_order(case, perm, base=None):
     if m1.shape != m0_shape(base) or not np.array_equal(m1, base[2][p]):
         bad.append(('iterfit:order-dependence:mask-not-permuted-with-input', 'perm %s mask(sorted) %s mask(perm) %s'
                     % (list(perm), base[2].astype(int).tolist(), np.asarray(m1).astype(int).tolist())))
-    if not np.all(np.abs(c1 - base[1]) <= 1e-6 * scale):      # both sides are pydl (summation order differs; cond <= 1e4 by the gate)
+    f32 = bool(case.get('layout')) and case['layout'][0] == 'float32'
+    if not np.all(np.abs(c1 - base[1]) <= (1e-3 if f32 else 1e-6) * scale):      # both sides are pydl (summation order differs; cond <= 1e4 by the gate)
         bad.append(('iterfit:order-dependence:curve', 'perm %s max diff %.3g' % (list(perm), np.max(np.abs(c1 - base[1])))))
     if np.any(np.asarray(m1)[w[p] <= 0]):
         bad.append(('iterfit:mask-true-at-nonpositive-invvar', 'perm %s' % (list(perm),)))
     if modified:
         bad.append(('iterfit:input-modified', ''))
+    if case.get('layout'):
+        bad = [(sg + ':layout-%s-%s' % tuple(case['layout']), msg) for sg, msg in bad]
     return bad, base
 
 
@@ -449,7 +455,7 @@ def perms12(n):
 
 def tasks(tier):
     T = tier == 'thorough'
-    t = [{'part': 'W', 'tier': tier}]
+    t = [{'part': 'W', 'tier': tier}, {'part': 'Y', 'tier': tier}]
     for ci, cfg in enumerate(order_configs(T)):
         for first in range(7):
             t.append({'part': 'O', 'cfg': cfg, 'first': first})
@@ -543,6 +549,26 @@ def run_task(task):
             bad, base = check_order(cfg, perm, base)
             _emit(acc, case, bad, 'ok:order:m%d' % cfg['maxiter'] if not bad else 'bad:' + bad[0][0], perm != list(range(7)), sample=False)
         acc.sample(dict(cfg, perm=[task['first']] + [i for i in range(7) if i != task['first']]))
+        return acc
+    if part == 'Y':
+        # memory layout / dtype of xdata, ydata, invvar: same answer as for plain contiguous float64 arrays
+        cfgs = [c for c in order_configs(False) if c['out']][:4]
+        cfgs.append({'n': 12, 'k': 3, 'knots': ['everyn', 3], 'zero': [5], 'out': [[2, 50.0]], 'ivpat': 1, 'upper': 5, 'lower': 5, 'maxiter': 10})
+        cfgs.append({'n': 12, 'xset': 'tie', 'k': 2, 'knots': ['nbkpts', 3], 'zero': [4], 'out': [[9, -12.0]], 'ivpat': 0, 'upper': 3, 'lower': 5, 'maxiter': 2})
+        for cfg in cfgs:
+            n = cfg['n']
+            gate = check_procedure(dict(cfg, part='P'))[3]
+            if gate:
+                acc.skip('layout layer: ' + gate)
+                continue
+            for name in _bsp.LAYOUTS[1:]:
+                for which in ('x', 'y', 'w', 'all'):
+                    base = None
+                    for perm in (list(range(n)), list(range(n - 1, -1, -1)), list(range(0, n, 2)) + list(range(1, n, 2))):
+                        ocfg = dict(cfg, part='O', layout=[name, which])
+                        case = dict(ocfg, perm=perm)
+                        bad, base = check_order(ocfg, perm, base)
+                        _emit(acc, case, bad, 'ok:layout:%s:%s' % (name, which) if not bad else 'bad:' + bad[0][0], True, sample=False)
         return acc
     if part == 'G':
         n = 16
